@@ -13,8 +13,8 @@ def runs_for(prop, tier):
     def R(prof, w=1.0):
         return Q(prof, int((250 if big else 30) * w), 120 if big else 80, 6 if big else 2)
     table = {
-        "C01": [R("capacity", 1.5), R("core"), R("reserve", .7)],
-        "C02": [R("core"), R("reload"), R("dyn"), R("capacity", .5)],
+        "C01": [R("capacity", 1.5), R("core"), R("reserve", .7), R("gang")],
+        "C02": [R("core"), R("reload"), R("dyn"), R("capacity", .5), R("gang")],
         "C03": [R("core"), R("gang"), R("capacity", .6), R("preempt", .6)],
         "C04": [R("core"), R("gang"), R("preempt", .6)],
         "C05": [R("limits", 1.5), R("core", .5)],
@@ -31,9 +31,11 @@ def runs_for(prop, tier):
     }
     return table[prop]
 
-def model_stage(tier, seed, mc=True):
-    """Pipelines A + B for the core pipeline properties: exhaustive TLC run of the generative specification (intended
-    behaviour) and environment histories generated from it (bounded behaviours + sampled long behaviours)."""
+def model_stage(tier, seed, mc=True, focus="cold"):
+    """Pipelines A + B for the core pipeline properties: exhaustive TLC runs of the generative specification (intended
+    behaviour; cold start and the two warm starts around a placeholder swap) and environment histories generated from it
+    (bounded behaviours + sampled long behaviours). focus = "warm": most of the replay budget goes to the histories
+    that start with an allocated placeholder."""
     from . import modelgen as G
     import random
 
@@ -41,23 +43,33 @@ def model_stage(tier, seed, mc=True):
         res = {"ops_files": []}
         if mc:
             cfg = "MC_YK_intended.cfg" if tier == "quick" else "MC_YK_intended11.cfg"
-            r = G.model_check(work, cfg, workers=min(C.NCPU, 12))
-            if not r["ok"]:
-                raise C.Infra("the intended-behaviour model violates %s: specification error" % r["violated"])
-            res.update(states=r["distinct"], transitions=r["generated"], model_cfg=cfg)
-        depth = 5 if tier == "quick" else 6
-        ts, g, d = G.state_cover_tests(work, depth)
+            res.update(states=0, transitions=0, model_cfg="")
+            for c in (cfg, "MC_YK_warm.cfg", "MC_YK_warm2.cfg"):
+                r = G.model_check(work, c, workers=min(C.NCPU, 12))
+                if not r["ok"]:
+                    raise C.Infra("the intended-behaviour model (%s) violates %s: specification error" % (c, r["violated"]))
+                res.update(states=res["states"] + r["distinct"], transitions=res["transitions"] + r["generated"], model_cfg=(res["model_cfg"] + " " + c).strip())
+        quick = tier == "quick"
         rnd = random.Random(seed)
-        rnd.shuffle(ts)
-        ts = ts[:1200 if tier == "quick" else 12000]
-        ss = G.simulated_tests(work, 250 if tier == "quick" else 4000, seed)
-        allt = ts + ss
-        n = 4 if tier == "quick" else 12
+
+        def take(tests, n):
+            rnd.shuffle(tests)
+            return tests[:n]
+        warm = focus == "warm"
+        cold, _, _ = G.state_cover_tests(work, 5 if quick else 6)
+        cold = take(cold, (400 if warm else 1000) if quick else 10000)
+        w2, _, _ = G.state_cover_tests(work, 3 if quick else 4, warm=2)
+        w2 = take(w2, (2000 if warm else 300) if quick else 12000)
+        w1, _, _ = G.state_cover_tests(work, 4 if quick else 5, warm=1)
+        w1 = take(w1, (300 if warm else 100) if quick else 12000)
+        ss = G.simulated_tests(work, 250 if quick else 4000, seed)
+        allt = cold + w2 + w1 + ss
+        n = 6 if quick else 12
         for i in range(n):
             f = os.path.join(work, "gen-ops-%d.ndjson" % i)
             G.write_ops(allt[i::n], f)
             res["ops_files"].append(f)
-        res.update(tests_bounded=len(ts), tests_simulated=len(ss), test_depth=depth)
+        res.update(tests_bounded=len(cold), tests_warm=len(w1) + len(w2), tests_simulated=len(ss))
         return res
     return gen
 
@@ -71,9 +83,12 @@ NEED = {   # vacuity guards: the run is not a verdict unless these step kinds oc
 # properties decided by their own pipeline module (vlib/<module>.py: main(prop, tier, seed, argv))
 OTHER = {"C14": "conc", "C18": "resarith", "C19": "sorting", "C20": "events", "C15": "confvalid", "C17": "placement"}
 # C13: besides its own checks, every ledger invariant counts in the malformed-request profile ("leaves accounting as it was")
-PREFIXES = {"C13": ["C13_", "C03_", "C01_NodeLedger", "C09_Views", "C05_UserUsage", "C05_GroupUsage"]}
+PREFIXES = {"C13": ["C13_", "C03_", "C01_NodeLedger", "C09_Views", "C05_UserUsage", "C05_GroupUsage"],
+            # C12: "... and scheduling afterwards still respects the capacity, quota and accounting properties"
+            "C12": ["C12_", "C01_NodeLedger", "C01_Step", "C01_AvailNonNeg", "C02_Step", "C03_", "C05_Step", "C05_UserUsage", "C05_GroupUsage"]}
 SECOND_PART = {"C05": "ugmlimits"}   # the user/group manager as a deterministic state machine (spec/UGM.tla, lock-step)
 MODEL_PROPS = {"C01", "C02", "C03", "C04", "C06", "C09", "C10"}   # properties the generative model speaks about
+WARM_FOCUS = {"C03", "C04", "C06", "C10"}   # of those, the ones about what happens around a placeholder swap
 CRASH_OWNERS = {"C08", "C13"}   # properties whose statement covers "the core process dies"
 LEVEL_TEXT = {}
 
@@ -95,7 +110,7 @@ def main(argv):
             return
         C.build()
         kf_all = C.known_findings()
-        res = T.run(prop, PREFIXES.get(prop, [prop + "_"]), runs_for(prop, tier), tier, seed, kf_all, NEED[prop], gen=model_stage(tier, seed) if prop in MODEL_PROPS else None)
+        res = T.run(prop, PREFIXES.get(prop, [prop + "_"]), runs_for(prop, tier), tier, seed, kf_all, NEED[prop], gen=model_stage(tier, seed, focus="warm" if prop in WARM_FOCUS else "cold") if prop in MODEL_PROPS else None)
         # a crash of the core process is a violation for the properties that speak about it, otherwise not a verdict
         crash_infra = None
         for msg, rp in res["crashes"]:
@@ -107,7 +122,9 @@ def main(argv):
         missing = [n for n in NEED[prop] if res["counters"].get(n, 0) == 0]
         kf_lines = []
         for k in kf_all:
-            if k.get("status") == "known" and k.get("shape") and prop in k.get("properties", [k.get("property")]):
+            pref = PREFIXES.get(prop, [prop + "_"])
+            touches = any(n.startswith(x) for n in k.get("taints_step", []) + k.get("taints_state", []) for x in pref)
+            if k.get("status") == "known" and k.get("shape") and (prop in k.get("properties", [k.get("property")]) or touches):
                 kf_lines.append("KNOWN-FINDING: property=%s %s [%s] observed_in_this_run=%d" % (prop, k["what"], k["id"], res["kf_obs"].get(k["id"], 0)))
         cov = {"evaluations": res["steps"], "distinct_nontrivial": res["nontrivial"],
                "rule": "one evaluation = one step of the real core validated by TLC against YKTrace.tla (all %s checks on the logged pre/post state); a trace (operation sequence: seeded workload profile or TLC-generated environment history) is non-trivial when it contains at least one step of the kinds %s; distinct = distinct operation sequences (sha1)" % (PREFIXES.get(prop, [prop + "_*"]), NEED[prop]),
@@ -119,7 +136,7 @@ def main(argv):
             m = res["model"]
             level = "model_checking"
             cov.update(states=m["states"], transitions=m["transitions"], model=m["model_cfg"], model_exhaustive_within_bounds=True,
-                       tests_generated_bounded=m["tests_bounded"], tests_generated_simulated=m["tests_simulated"],
+                       tests_generated_bounded=m["tests_bounded"], tests_generated_warm=m["tests_warm"], tests_generated_simulated=m["tests_simulated"],
                        explanation="states/transitions: exhaustive TLC run of spec/YuniKorn.tla (intended behaviour) under %s, all design invariants hold; its environment histories were replayed on the real core and every step validated" % m["model_cfg"])
             assumptions.append("the generative model is exhaustive only within the constants of its MC_YK configuration")
         C.write_evidence(prop, tier, seed, level, cov, time.time() - t0, len(res["violations"]), assumptions)
